@@ -42,7 +42,15 @@ def main():
         from harness import extract_opsets as X
         X.emit_lean(X.extract_all(core.REPO))
 
-    for name, fn in [("C05", c05), ("C12", c12), ("C14", c14), ("C17", c17), ("C16", c16), ("C08", c08)]:
+    def c10():
+        from harness import c10_extract
+        c10_extract.regenerate()
+
+    def c15():
+        from harness import extract_c15
+        extract_c15.regenerate()
+
+    for name, fn in [("C10", c10), ("C15", c15), ("C05", c05), ("C12", c12), ("C14", c14), ("C17", c17), ("C16", c16), ("C08", c08)]:
         step(name, fn)
 
 
